@@ -93,10 +93,18 @@ def configs(tier):
             c.append({"kind": "model", "gene": g, "genome": b, "max_cn": mc, "fs": None})
     for g in ("toy", "GA", "GB", "GC"):
         c.append({"kind": "wrapper", "gene": g, "genome": "hg19"})
+    # the clauses "first reported is optimal / all reported lie within the gap / complete"
+    # rest on the solution enumerator: its contract on an uninterpreted model family
+    # (shared with C05)
+    for gap in ("0", "0.1", "sym"):
+        c.append({"kind": "enum", "n": 2, "gap": gap, "limit": None})
     return c
 
 
 def run_config(cfg):
+    if cfg["kind"] == "enum":
+        import c05
+        return c05.run_enum(cfg)
     return globals()["run_" + cfg["kind"]](cfg)
 
 
@@ -634,6 +642,9 @@ def concrete_score(gene, profile, slots, c0, c1):
 
 
 def replay(o):
+    if o["kind"] == "enum":
+        import c05
+        return c05.replay_enum(o)
     if o["kind"] == "none":
         return True, "observed directly on the real wrapper"
     if o["kind"] == "wrapper":
